@@ -26,6 +26,7 @@ fn profile(rng: &mut Rng) -> Profile {
     p.p_clear = (1, *rng.pick(&[4u64, 8, 16]));
     p.p_restart = (1, *rng.pick(&[4u64, 8, 16]));
     p.p_midblock = (1, 6);
+    p.p_park_commit = (1, *rng.pick(&[6u64, 12]));
     p.p_mine = (1, 10);
     p.commit_after_init = (2, 3);
     p.w_spin = 0;
@@ -143,6 +144,10 @@ impl Prop for C03 {
                         Some(c) => fresh_replay(&saved.chain, c, "c03-fresh"),
                         None => Instance::fresh("c03-empty"),
                     };
+                    // transactions that were only parked when the last commit was accepted are part of that commit
+                    for c in &saved.committed_parked {
+                        let _ = fresh.call(&c.method, c.params.clone());
+                    }
                     let uni = a.uni.clone();
                     if let Some((kind, detail)) = compare(&mut a.inst, &mut fresh, &uni, Depth::Full) {
                         violation = Some(Violation::new(
